@@ -136,7 +136,12 @@ impl RegisterBase {
             .write(address, buf, device, store, cx)?;
 
         match self.cacheable {
-            CachingMode::WriteThrough => cx.cache_data(nid, address, length, buf),
+            CachingMode::WriteThrough => {
+                // Blocks cached for another address or length of this register may overlap the
+                // written bytes.
+                cx.invalidate_cache_of(nid);
+                cx.cache_data(nid, address, length, buf);
+            }
             // The value read before this write must not be served any more.
             CachingMode::WriteAround => cx.invalidate_cache_of(nid),
             CachingMode::NoCache => {}
